@@ -1,7 +1,11 @@
 // Unit c02_result_type -- property C02 "Failed, rejected and aborted transactions change nothing but fees"
-// Gap-filling unit: classification of the outcome (commit / reject / abort).
+// Gap-filling unit: (1) classification of the outcome (commit / reject / abort), (2) what the track keeps when a
+// transaction fails, (3) which events survive a failure.
 // Real code: radix-engine/src/system/system_callback.rs :: System::determine_result_type
 //            the abortion() chain it consults: <RuntimeError / SystemModuleError / CostingError / FeeReserveError as CanBeAbortion>::abortion
+//            radix-engine/src/track/track.rs :: MappedTrack::revert_non_force_write_changes                      (mod unit::track)
+//            radix-engine/src/track/state_updates.rs :: {TrackedNode, TrackedPartition, TrackedSubstateValue}::revert_writes
+//            radix-engine/src/system/system_modules/transaction_runtime/module.rs :: add_event, drop guard of finalize  (mod unit::events)
 // The fee reserve is ENVIRONMENT here (its contracts are the ones proved on the real SystemLoanFeeReserve by unit c06_fee_reserve).
 use vstd::prelude::*;
 verus! {
